@@ -8,7 +8,10 @@
 //! current-thread tokio runtime over a finite in-memory stream (`run`: `stream::iter`; `runc`: an
 //! unbounded channel fed by a concurrently running producer task that yields between sends). The
 //! manager always receives a *clone* of the map; the books are read afterwards through the
-//! original handles.
+//! original handles. `runr` is `runc` with a second reader: a task holding its own clones of every
+//! cell's `Arc` polls `try_read()` on all of them each time the manager waits for the next event
+//! (`rdlocked n`: how often a book was found write-locked between two events; documented use of the
+//! map is "clone the map for viewing the up to date OrderBooks elsewhere", so `n` is 0).
 use barter_data::{
     books::{
         Level, OrderBook,
@@ -120,10 +123,54 @@ enum Map {
 }
 
 /// `OrderBookL2Manager::run` over a clone of the map; `chan` selects the channel-fed stream.
-fn run_manager<M>(rt: &tokio::runtime::Runtime, map: &M, stream: Vec<StreamEv>, chan: bool)
+fn run_manager<M>(
+    rt: &tokio::runtime::Runtime,
+    map: &M,
+    stream: Vec<StreamEv>,
+    chan: bool,
+    reader: Option<Box<dyn Fn() -> usize>>,
+) -> usize
 where
     M: OrderBookMap<Key = usize> + 'static,
 {
+    if let Some(poll) = reader {
+        // second reader: its own Arc clones, polled whenever the manager is pending on the channel
+        let books = map.clone();
+        let local = tokio::task::LocalSet::new();
+        return local.block_on(rt, async move {
+            let (tx, rx) = tokio::sync::mpsc::unbounded_channel::<StreamEv>();
+            let done = std::rc::Rc::new(std::cell::Cell::new(false));
+            let producer = tokio::task::spawn_local(async move {
+                for ev in stream {
+                    if tx.send(ev).is_err() {
+                        break;
+                    }
+                    // let the manager take the event, then the reader look at the books
+                    tokio::task::yield_now().await;
+                    tokio::task::yield_now().await;
+                }
+            });
+            let done_r = done.clone();
+            let rd = tokio::task::spawn_local(async move {
+                let mut locked = 0usize;
+                loop {
+                    locked += poll();
+                    if done_r.get() {
+                        break locked;
+                    }
+                    tokio::task::yield_now().await;
+                }
+            });
+            let manager = OrderBookL2Manager {
+                stream: tokio_stream::wrappers::UnboundedReceiverStream::new(rx),
+                books,
+            };
+            manager.run().await;
+            done.set(true);
+            producer.await.expect("producer");
+            rd.await.expect("reader")
+        });
+    }
     if !chan {
         let manager = OrderBookL2Manager {
             stream: futures::stream::iter(stream),
@@ -154,6 +201,7 @@ where
             producer.await.expect("producer");
         });
     }
+    0
 }
 
 fn run() {
@@ -291,16 +339,38 @@ fn run() {
                     };
                     queue.push(item(k, event));
                 }
-                "run" | "runc" => {
+                "run" | "runc" | "runr" => {
+                    // as the drivers: no argument, and a map must have been built (the queue is kept otherwise)
+                    if op.len() != 1 || matches!(map, Map::Unset) {
+                        lines.push("bad-op".into());
+                        continue;
+                    }
                     let stream = std::mem::take(&mut queue);
                     let chan = op[0] == "runc";
-                    match &map {
-                        Map::Single(m) => run_manager(&rt, m, stream, chan),
-                        Map::Multi(m) => run_manager(&rt, m, stream, chan),
-                        Map::Unset => {
-                            lines.push("bad-op".into());
-                            continue;
-                        }
+                    // the reader's own clones of the Arcs; one poll = try_read() on every book
+                    let reader: Option<Box<dyn Fn() -> usize>> = (op[0] == "runr").then(|| {
+                        let handles = cells.clone();
+                        Box::new(move || {
+                            handles
+                                .iter()
+                                .filter(|h| match h.try_read() {
+                                    Some(book) => {
+                                        std::hint::black_box(book.sequence);
+                                        false
+                                    }
+                                    None => true,
+                                })
+                                .count()
+                        }) as Box<dyn Fn() -> usize>
+                    });
+                    let with_reader = reader.is_some();
+                    let locked = match &map {
+                        Map::Single(m) => run_manager(&rt, m, stream, chan, reader),
+                        Map::Multi(m) => run_manager(&rt, m, stream, chan, reader),
+                        Map::Unset => unreachable!(),
+                    };
+                    if with_reader {
+                        lines.push(format!("rdlocked {locked}"));
                     }
                     for (c, cell) in cells.iter().enumerate() {
                         observe(c, &cell.read(), lines);
@@ -671,6 +741,141 @@ fn domain_case(out: &mut Out, rng: &mut Rng, idx: usize) {
     out.line(format!("depth {} {}", rng.below(n_cells as u64), rng.pick(&DEPTH_EDGES)));
 }
 
+// ---- configuration-shape family (`cfg<id>` cases; own random stream, so the `x` / `r` / `d` cases stay as they are) ----
+
+/// sparse instrument keys: small, around 2^8 / 2^16 / 2^32 (equal low 32 bits: 1 / 2^32+1, 7 / 2^32+7), usize::MAX
+const CFG_KEYS: [u64; 14] = [
+    0,
+    1,
+    7,
+    255,
+    256,
+    65536,
+    4294967295,
+    4294967296,
+    4294967297,
+    4294967303,
+    9223372036854775808,
+    18446744073709551614,
+    18446744073709551615,
+    12,
+];
+
+/// One case of the configuration-shape family; the shape is fixed by the case index:
+///  0 reader   the usual small set-up, but most runs are `runr`: a second reader task with its own clones of the
+///             cells' Arcs polls try_read() on every book each time the manager waits for the next event
+///  1 many     5-12 cells, an OrderBookMapMulti of 5-12 distinct sparse keys (cells pre-populated or default, some
+///             shared, some unmapped); only an "active" subset of the instruments ever receives an event, the others
+///             and the unmapped cells must stay as they are; events for keys that are not in the map (incl. keys with
+///             the low 32 bits of a mapped one); 25 % Snapshots (a pre-populated book is replaced)
+///  2 single   OrderBookMapSingle with a large key on a cell other than the first, among 2-5 pre-populated cells;
+///             events for the key, for keys sharing its low 32 bits and for small keys
+fn cfg_case(out: &mut Out, rng: &mut Rng, idx: usize) {
+    let shape = idx % 3;
+    let grid = Grid::new(rng, 2, 7);
+    let zero_pct = *rng.pick(&[10u64, 30, 60]);
+    let dirty_pct = *rng.pick(&[0u64, 0, 30]);
+    let mut seq: u64 = rng.range(0, 1000) as u64;
+    let n_cells = match shape {
+        0 => rng.range(1, 4),
+        1 => rng.range(5, 12),
+        _ => rng.range(2, 5),
+    } as usize;
+    for _ in 0..n_cells {
+        if rng.chance(if shape == 2 { 15 } else { 45 }) {
+            out.line("celld");
+        } else {
+            let clean = !rng.chance(dirty_pct);
+            out.line(format!("cell {}", body(rng, &grid, seq, clean, 8, zero_pct)));
+        }
+    }
+    // the configured keys (distinct) and the keys that receive events
+    let mut pool: Vec<u64> = CFG_KEYS.to_vec();
+    shuffle(rng, &mut pool);
+    let (mapped, event_keys): (Vec<u64>, Vec<u64>) = match shape {
+        0 => {
+            let n = rng.range(1, 4) as usize;
+            let m: Vec<u64> = (0..n as u64).collect();
+            (m.clone(), m)
+        }
+        1 => {
+            let n = rng.range(5, 12) as usize;
+            let m: Vec<u64> = pool[..n].to_vec();
+            let active = rng.range(1, 3) as usize;
+            let mut ev: Vec<u64> = m[..active].to_vec();
+            // unmapped keys, among them (when available) ones sharing the low 32 bits of a mapped key
+            ev.push(pool[n]);
+            for k in &m {
+                let twin = k ^ (1 << 32);
+                if !m.contains(&twin) && rng.chance(30) {
+                    ev.push(twin);
+                }
+            }
+            (m, ev)
+        }
+        _ => {
+            let k = *rng.pick(&[4294967297u64, 4294967303, 18446744073709551615, 9223372036854775808, 65536]);
+            (vec![k], vec![k, k, k, k ^ (1 << 32), k & 0xFFFF_FFFF, 0, 1])
+        }
+    };
+    if shape == 2 || (shape == 0 && rng.chance(25)) {
+        out.line(format!("single {} {}", mapped[0], if shape == 2 { rng.range(1, n_cells as i64 - 1) as u64 } else { rng.below(n_cells as u64) }));
+    } else {
+        let mut pairs: Vec<String> = mapped
+            .iter()
+            .enumerate()
+            .map(|(i, k)| {
+                // shape 1: mostly one cell per key (the last cell stays unmapped), sometimes a shared one
+                let c = if shape == 1 && !rng.chance(15) { (i % (n_cells - 1)) as u64 } else { rng.below(n_cells as u64) };
+                format!("{k}:{c}")
+            })
+            .collect();
+        shuffle(rng, &mut pairs);
+        out.line(format!("multi {}", pairs.join(" ")));
+    }
+    out.line("keys");
+    for k in mapped.iter().chain(event_keys.iter()) {
+        out.line(format!("find {k}"));
+    }
+    let len = rng.range(2, 18);
+    let run_pct = *rng.pick(&[10u64, 35, 100]);
+    let run_op = |rng: &mut Rng| match rng.below(10) {
+        0 => "run",
+        1 | 2 => "runc",
+        _ => "runr",
+    };
+    let snap_pct = if shape == 1 { 25 } else { 10 };
+    for _ in 0..len {
+        if rng.chance(4) {
+            out.line("re");
+            continue;
+        }
+        let k = *rng.pick(&event_keys);
+        seq = match rng.below(10) {
+            0 => seq,
+            1 => seq.saturating_sub(rng.below(5)),
+            _ => seq + 1 + rng.below(3),
+        };
+        if rng.chance(snap_pct) {
+            let clean = !rng.chance(dirty_pct);
+            out.line(format!("snap {k} {}", body(rng, &grid, seq, clean, 8, zero_pct)));
+        } else {
+            let (b, a) = match rng.below(4) {
+                0 => (any_levels(rng, &grid, 8, zero_pct), vec![]),
+                1 => (vec![], any_levels(rng, &grid, 8, zero_pct)),
+                _ => (any_levels(rng, &grid, 8, zero_pct), any_levels(rng, &grid, 8, zero_pct)),
+            };
+            out.line(format!("upd {k} {seq} {} | {} | {}", time(rng), b.join(" "), a.join(" ")));
+        }
+        if rng.chance(run_pct) {
+            out.line(run_op(rng));
+        }
+    }
+    out.line(run_op(rng));
+    out.line("keys");
+    out.line(format!("find {}", mapped[mapped.len() - 1]));
+}
+
 fn generate(seed: u64, n_cases: usize, tier: &str) {
     let mut out = Out::new();
     let mut rng = Rng::new(seed);
@@ -732,6 +937,13 @@ fn generate(seed: u64, n_cases: usize, tier: &str) {
         id += 1;
         out.case(format!("d{id}"));
         domain_case(&mut out, &mut drng, j);
+    }
+    // configuration-shape family: one case per eight random ones, from its own random stream
+    let mut crng = Rng::new(seed ^ 0xCF6_C05);
+    for j in 0..n_cases / 8 {
+        id += 1;
+        out.case(format!("cfg{id}"));
+        cfg_case(&mut out, &mut crng, j);
     }
     out.flush();
 }
